@@ -53,8 +53,9 @@
 (*    unobservable; the model removes that caller from chans instead        *)
 (*  - outcomes: ok (any response, rcode is data), fail (shared upstream     *)
 (*    error), local (request-local: the leader's context ended), capRes /   *)
-(*    capZone (capacity refusals; NOT request-local in the code: they reach *)
-(*    every caller that joined that flight)                                 *)
+(*    capZone (capacity refusals; as built before the repair they were NOT  *)
+(*    request-local for the regroup rule and reached every caller that had  *)
+(*    joined that flight: switch CapRegroup, property CapacityPrivate)      *)
 (*  - panics inside the closure are not modelled: x/sync re-panics on a     *)
 (*    fresh goroutine (process-fatal by design)                             *)
 (*                                                                         *)
@@ -83,7 +84,10 @@ CONSTANTS
   OwnId,        \* groupLookup: `resp.Id = req.Id`
   RetireById,   \* retireGeneration: `if w.current[key] == generation`
   RelOnRefusal, \* the resolution slot's deferred release also covers the zone-refusal return
-  CtxSelect     \* TimedDoChanWithRole: the `case <-ctx.Done()` arm of the select
+  CtxSelect,    \* TimedDoChanWithRole: the `case <-ctx.Done()` arm of the select
+  CapRegroup    \* groupLookup: a follower handed the LEADER's capacity refusal regroups under its own context, as it
+                \* does for the leader's request-local errors (FALSE = as built before the repair: the refusal of the
+                \* one caller whose closure ran reached every caller that had joined its flight)
 
 Zones == {ZoneOf[k] : k \in Keys}
 Flights == 1..MaxFlights
@@ -210,7 +214,14 @@ Post(c) ==
                      ELSE /\ cl' = [cl EXCEPT ![c].pc = "dochan", ![c].res = NoBox]   \* `continue`
                           /\ UNCHANGED ghostVars
               ELSE Return(c, "local", FALSE)
-       [] r.o \in {"fail", "capRes", "capZone"} -> Return(c, r.o, FALSE)
+       [] r.o \in {"capRes", "capZone"} ->
+            IF CapRegroup /\ r.sh /\ ~cl[c].ran
+              THEN IF cl[c].ctx
+                     THEN Return(c, "ctx", FALSE)
+                     ELSE /\ cl' = [cl EXCEPT ![c].pc = "dochan", ![c].res = NoBox]   \* `continue`
+                          /\ UNCHANGED ghostVars
+              ELSE Return(c, r.o, FALSE)
+       [] r.o = "fail" -> Return(c, "fail", FALSE)
        [] r.o = "ok" -> Return(c, "ok", IF CopyShared THEN ~r.sh ELSE TRUE)
   /\ UNCHANGED <<wrapVars, nf, ng, fl, slotVars, ncalls, nenv>>
 
@@ -402,6 +413,12 @@ CtxPrivate == \A c \in Callers : last[c].o \in {"ctx", "local"} => last[c].ctxWa
 ErrorsFromOwnFlight ==
   \A c \in Callers : last[c].o \in {"ok", "fail", "capRes", "capZone"} =>
      /\ fl[last[c].f].out = last[c].o /\ fl[last[c].f].key = last[c].key
+
+(* C11: "capacity-refused resolution surfaces as SERVFAIL to that client only; it neither wedges nor fails other
+   clients waiting on the same name": a caller returns a capacity refusal only when its OWN closure asked for the
+   slot and was refused *)
+CapacityPrivate ==
+  \A c \in Callers : last[c].o \in {"capRes", "capZone"} => fl[last[c].f].leader = c
 
 (* a waiting caller is attached to a flight that still owes it a result (nobody is wedged on a
    finished flight, and a caller never joins a flight that already delivered) *)
